@@ -1,9 +1,10 @@
-"""harmless3/make.py: writes harmless3/NN.diff + INDEX.txt and harmless3/mutants/NN.diff + INDEX.txt: behaviour-preserving rewrites of the functions pystream.py translates"""
+"""harmless3-stream/make.py: writes NN.diff + INDEX.txt and mutants/NN.diff + INDEX.txt next to itself (VERIF_REPO = the tree to diff against, default /repo): behaviour-preserving rewrites of the functions pystream.py translates"""
 import os, subprocess, shutil, tempfile, sys
 W = os.path.dirname(os.path.dirname(os.path.abspath(__file__)))
-OUT = W + '/harmless3'
+OUT = os.path.dirname(os.path.abspath(__file__))
 F = 'testtools/testresult/real.py'
-SRC = open('/repo/' + F).read()
+REPO = os.environ.get('VERIF_REPO', '/repo')          # the tree the diffs are made against
+SRC = open(REPO + '/' + F).read()
 RW = []
 MU = []
 
@@ -631,6 +632,31 @@ rw('converter', "ExtendedToStreamDecorator.startTestRun: `self._started = True` 
         self._tags = TagContext()
         self.shouldStop = False
         self.__now = None
+'''), expect='strict')
+
+# (appended later so that the numbers above stay)
+TAGGER = '''        if supplied is None and not test_tags:
+            test_tags = None
+'''
+if SRC.count(TAGGER) == 1:
+    rw('decorators', "StreamTagger.status: the two tests of the None rule exchanged (`if not test_tags and supplied is None`)",
+       (TAGGER, '''        if not test_tags and supplied is None:
+            test_tags = None
+'''))
+IMPLIED = '''        tags, now = self._tags, self.__now
+        self.startTestRun()
+        self._tags, self.__now = tags, now
+'''
+if SRC.count(IMPLIED) == 1:
+    rw('converter', "ExtendedToStreamDecorator._implied_start: the two locals renamed",
+       (IMPLIED, '''        kept_tags, kept_now = self._tags, self.__now
+        self.startTestRun()
+        self._tags, self.__now = kept_tags, kept_now
+'''))
+    rw('converter', "ExtendedToStreamDecorator._implied_start: tags and clock put back BEFORE startTestRun() runs (they are reset again: the time() / tags() given before the first startTest are lost)",
+       (IMPLIED, '''        tags, now = self._tags, self.__now
+        self._tags, self.__now = tags, now
+        self.startTestRun()
 '''), expect='strict')
 
 # =================================================================================================== mutants
